@@ -25,7 +25,8 @@ def run(case):
                 problems.append('create_app(%r) raised %r' % (text, e))
                 continue
             cl = Client(app, Response)
-            for path, method in (('/', 'GET'), ('/any/thing', 'GET'), ('/x', 'POST')):
+            for path, method in (('/', 'GET'), ('/any/thing', 'GET'), ('/x', 'POST'), ('/clastic_assets/../flaw.py', 'GET'),
+                                 ('/clastic_assets//etc/passwd', 'GET'), ('/clastic_assets/no_such_asset', 'GET')):
                 try:
                     r = cl.open(path, method=method)
                 except Exception as e:
